@@ -31,7 +31,8 @@ fn gen_tree(rng: &mut Rng, with_commands: bool) -> (Project, String) {
     let mut dirs: Vec<String> = vec![pre("")];
     let _ = &mut dirs;
     // "ab" and "x/y2": siblings whose names extend a neighbour's name (string prefix, not ancestor)
-    for d in ["a", "a/b", "a/b/c", "x", "x/y", "e.txtpp", "ab", "x/y2"] {
+    // ".cfg": a directory whose name begins with a dot is a directory like any other
+    for d in ["a", "a/b", "a/b/c", "x", "x/y", "e.txtpp", "ab", "x/y2", ".cfg", "a/.hid"] {
         if rng.chance(3, 5) {
             // parents come along
             let mut cur = String::new();
@@ -69,7 +70,9 @@ fn gen_tree(rng: &mut Rng, with_commands: bool) -> (Project, String) {
     let mut outs: BTreeSet<String> = BTreeSet::new();
     for i in 0..n {
         let d = rng.pick(&dirs).clone();
-        let stem = match rng.below(6) {
+        let stem = match rng.below(7) {
+            // a name that begins with a dot (`.env.txtpp` builds `.env`)
+            6 => format!(".s{i}"),
             0 if DOTTED => format!("s{i}.v{}", rng.below(3)),
             1 if DOTTED => format!("s{i}.tar"),
             _ => format!("s{i}"),
